@@ -437,6 +437,8 @@ StepFindings(T, e, post) ==
            /\ ~({ob.at[q] : q \in 1..Len(ob.at)} \subseteq {e.ob.at[q] : q \in 1..Len(e.ob.at)})
         THEN {<<"attrs_lost", 1, e.op, 0>>} ELSE {})
   \cup (IF e.op \in ReadOps /\ e.ob # ob THEN {<<"sideeffect", 1, "object", 0>>} ELSE {})
+  \* every registered indicator works on one of the candle lists the Hexital holds and feeds
+  \cup (IF e.exc = "" /\ e.ob.orph > 0 THEN {<<"orphan_manager", 1, e.op, e.ob.orph>>} ELSE {})
   \* the caller's containers are left as they were
   \cup (IF e.ab # e.aa THEN {<<"args_mutated", 1, e.op, 0>>}
         ELSE IF Len(e.ab) > 0 THEN {<<"ok", 1, "args", 0>>} ELSE {})
@@ -457,7 +459,7 @@ Init ==
   /\ notes = <<>>
   /\ reg = {}
   /\ mgs = {}
-  /\ ob = [at |-> <<>>, ai |-> 0]
+  /\ ob = [at |-> <<>>, ai |-> 0, orph |-> 0]
 
 Step ==
   /\ l <= Len(Traces[tid].ev)
